@@ -1503,6 +1503,8 @@ const MERGEABLE_OBJECT_SCHEMA_KEYS = new Set([
   "required",
   "additionalProperties",
   "propertyNames",
+  // (an annotation: it does not change what the schema accepts)
+  "description",
 ]);
 
 // Merges object schemas (closed, or with an index signature printed as additionalProperties) into one object schema.
@@ -1545,8 +1547,12 @@ function tryMergeAllOfObjectSchemas(schemas: JSONSchema7[]): JSONSchema7 | null 
     .map((it) => it.additionalProperties)
     .filter((it): it is JSONSchema7Definition => it != null && it !== false);
 
+  // documented members: the merged schema keeps the description when the members that have one agree on it
+  const descriptions = [...new Set(schemas.map((it) => it.description).filter((it) => it != null))];
+
   return {
     type: "object",
+    ...(descriptions.length === 1 ? { description: descriptions[0] } : {}),
     ...(Object.keys(properties).length > 0 ? { properties } : {}),
     ...(required.size > 0 ? { required: [...required] } : {}),
     additionalProperties: indexSchemas.length === 0 ? false : intersectSchemaDefinitions(indexSchemas),
